@@ -109,6 +109,64 @@ example : ∃ s', applyInPlace 8 exSrc (fun (st : Nat) x => (st + x, (x + st) % 
   exact ⟨s', h1, h2⟩
 end NonVacuity
 
+/-! ## (3) `try_chunks_mut` -/
+
+/-- reads through the view of chunk `j` address element `j * cs + i` of the vector -/
+theorem chunk_get_correct (W : Nat) (hW : 0 < W) (s : St) (h : s.Inv W) (cs j i : Nat)
+    (hc : s.len ≤ cs ∨ (cs * s.bw) % W = 0) (hpos : 0 < cs * s.bw) (hj : j * cs < s.len)
+    (hi : i < min cs (s.len - j * cs)) :
+    chunkOp W s cs j i none = .ok (.value (valAt W s.words s.bw (j * cs + i))) :=
+  chunk_get W hW s h cs j i hc hpos hj hi
+
+/-- writes through the view of chunk `j` (followed by the write-back of the chunk's words) set
+exactly element `j * cs + i`: same shape, every bit outside that element unchanged -/
+theorem chunk_set_correct (W : Nat) (hW : 0 < W) (s : St) (h : s.Inv W) (cs j i v : Nat)
+    (hc : s.len ≤ cs ∨ (cs * s.bw) % W = 0) (hpos : 0 < cs * s.bw) (hj : j * cs < s.len)
+    (hi : i < min cs (s.len - j * cs)) (hv : v < 2 ^ s.bw) :
+    ∃ s', chunkOp W s cs j i (some v) = .ok (.done s') ∧ s'.len = s.len ∧ s'.bw = s.bw ∧
+      s'.words.size = s.words.size ∧ s'.Inv W ∧
+      (∀ k, bitAt W s'.words k =
+        if (j * cs + i) * s.bw ≤ k ∧ k < (j * cs + i) * s.bw + s.bw
+        then v.testBit (k - (j * cs + i) * s.bw) else bitAt W s.words k) ∧
+      s'.vals W = (s.vals W).set (j * cs + i) v :=
+  chunk_set W hW s h cs j i v hc hpos hj hi hv
+
+/-- `Err(())` is returned exactly when the chunk size in bits is not a multiple of the word size and
+more than one chunk would be needed — whatever the chunk/element index and operation -/
+theorem chunk_err_iff (W : Nat) (hW : 0 < W) (s : St) (h : s.Inv W) (cs j i : Nat) (v : Option Nat) :
+    chunkOp W s cs j i v = .ok .err ↔ ¬ (s.len ≤ cs ∨ (cs * s.bw) % W = 0) :=
+  chunk_err_iff' W hW s h cs j i v
+
+/-- no chunk operation performs an out-of-bounds unchecked access -/
+theorem chunk_no_oob (W : Nat) (hW : 0 < W) (s : St) (h : s.Inv W) (cs j i : Nat) (v : Option Nat) :
+    chunkOp W s cs j i v ≠ .oob :=
+  chunk_no_oob' W hW s h cs j i v
+
+/-- the corner excluded by `hpos`: chunk size 0 or bit width 0 is the `chunks_mut(0)` panic -/
+theorem chunk_zero_panics (W : Nat) (hW : 0 < W) (s : St) (h : s.Inv W) (cs j i : Nat)
+    (v : Option Nat) (hc : s.len ≤ cs ∨ (cs * s.bw) % W = 0) (h0 : cs * s.bw = 0) :
+    chunkOp W s cs j i v = .panic :=
+  chunk_zero W hW s h cs j i v hc h0
+
+section NonVacuity
+private def exC : St := { words := #[0x21, 0x43, 0x65, 0x07, 0xEE], bw := 4, len := 7 }
+private theorem exC_inv : exC.Inv 8 := by
+  refine ⟨by decide, by decide, by decide, ?_⟩
+  unfold WordsOK
+  decide
+/-- chunks of 2 elements (one 8-bit word each); chunk 2, element 1 is element 5 -/
+example : chunkOp 8 exC 2 2 1 none = .ok (.value (valAt 8 exC.words exC.bw 5)) :=
+  chunk_get_correct 8 (by decide) exC exC_inv 2 2 1 (Or.inr (by decide)) (by decide) (by decide)
+    (by decide)
+example : ∃ s', chunkOp 8 exC 2 2 1 (some 9) = .ok (.done s') ∧ s'.vals 8 = (exC.vals 8).set 5 9 := by
+  obtain ⟨s', h1, _, _, _, _, _, h2⟩ := chunk_set_correct 8 (by decide) exC exC_inv 2 2 1 9
+    (Or.inr (by decide)) (by decide) (by decide) (by decide) (by decide)
+  exact ⟨s', h1, h2⟩
+/-- chunks of 3 elements = 12 bits: not word aligned, two chunks needed -/
+example : chunkOp 8 exC 3 0 0 none = .ok .err :=
+  (chunk_err_iff 8 (by decide) exC exC_inv 3 0 0 none).2 (by decide)
+end NonVacuity
+
 /-! ## (4) `get_unaligned` -/
 
 /-- `get_unaligned(i)` returns element `i` (the value `get(i)` returns) for every word size that is
@@ -119,6 +177,13 @@ theorem unaligned_eq_get (W : Nat) (h8 : 8 ∣ W) (hW : 0 < W) (s : St) (h : s.I
     (hpad : (i * s.bw) / 8 + W / 8 ≤ s.words.size * (W / 8)) :
     getUnaligned W s i = .ok (valAt W s.words s.bw i) :=
   unaligned_get W h8 hW s h i hi hadm hpad
+
+/-- the same, stated against `get` -/
+theorem unaligned_eq_get_call (W : Nat) (h8 : 8 ∣ W) (hW : 0 < W) (s : St) (h : s.Inv W) (i : Nat)
+    (hi : i < s.len) (hadm : s.bw ≤ W - 8 + 2 ∨ s.bw = W - 8 + 4 ∨ s.bw = W)
+    (hpad : (i * s.bw) / 8 + W / 8 ≤ s.words.size * (W / 8)) :
+    getUnaligned W s i = get W s i :=
+  unaligned_get' W h8 hW s h i hi hadm hpad
 
 section NonVacuity
 private def exU : St := { words := #[0xABCD, 0x1234, 0x7F7F, 0x5555, 0x0], bw := 7, len := 9 }
